@@ -390,6 +390,52 @@ def run(ck: Check):
             ok, short = check_trace(ck, ucfg, xs, out1, extra=dict(scenario=f"stream, prior mean scaled by S = {S!r}, variances by S^2 (all finite): the posterior must be the one of the unit-scale stream", scale=repr(S)))
             ck.case(dict(config=ucfg, kind="extreme-scale", scale=repr(S)), nontrivial=short, key=repr(("scale", ucfg, xs, S)))
             ck.count("extreme_scale_cases")
+    # two detectors built WITHOUT a model (the documented default GaussianUnknownMean()): re-parameterising the model of one
+    # through its public setter must not reach the other; and a hazard far below the spacing of doubles near 1 (1e-20: valid,
+    # in (0, 1)) is used as given - the reference in 50-digit arithmetic decides (deterministic)
+    dcfg = dict(prior_mean=0.0, prior_var=1.0, data_var=1.0, hazard=0.1, min_num_instances=2)   # the documented default model: prior N(0, 1), data variance 1
+    for order in ("tuned-before-the-other-is-built", "tuned-then-the-other-is-reset"):
+        try:
+            if order == "tuned-before-the-other-is-built":
+                ca = _BOCDConfig()
+                ca.model.data_var = 25.0
+                _BOCD(config=ca)
+                db = _BOCD(config=_BOCDConfig(hazard=0.1, min_num_instances=2))
+            else:
+                da, db = _BOCD(config=_BOCDConfig(hazard=0.1, min_num_instances=2)), _BOCD(config=_BOCDConfig(hazard=0.1, min_num_instances=2))
+                da.config.model.data_var = 25.0
+                da.reset()
+                db.update(value=0.5)
+                db.reset()
+            xs = [0.2, -0.1, 0.3, 0.0, 2.6, 2.4, 2.7, 2.5]
+            out = run_obj(db, xs)
+            ok, short = check_trace(ck, dcfg, xs, out, extra=dict(scenario=f"a detector built with the default model ({order}: ANOTHER default-model configuration had config.model.data_var assigned): the posterior must be the one of the documented default model"))
+            ck.case(dict(config=dcfg, kind="default-model-isolation", order=order), nontrivial=True, key=repr(("dflt-model", order)))
+            ck.count("default_model_isolation_cases")
+        except Exception as e:  # noqa: BLE001
+            ck.violation(dict(clause="raises", scenario="default-model-isolation"), dict(error=repr(e), order=order))
+    for hz in (1e-20, 1e-30):
+        hcfg = dict(prior_mean=0.0, prior_var=1.0, data_var=1.0, hazard=hz, min_num_instances=1)
+        # a level shift whose evidence ratio is of the order of 1 / hazard: the most probable run length flips within the tail
+        xs = [0.1, -0.2, 0.0, 0.15, -0.1, 0.05] + [9.6 if hz == 1e-20 else 11.8] * 6
+        try:
+            d = _BOCD(config=_BOCDConfig(model=_GUM(prior_mean=0.0, prior_var=1.0, data_var=1.0), hazard=hz, min_num_instances=1))
+            out = run_obj(d, xs)
+        except Exception as e:  # noqa: BLE001
+            ck.violation(dict(clause="raises", scenario="tiny-hazard"), dict(config=hcfg, stream=xs, error=repr(e)))
+            continue
+        try:
+            refh = reference_hp(hcfg, xs)
+        except Exception as e:  # noqa: BLE001
+            ck.notes.append(f"tiny-hazard reference failed: {e!r}")
+            continue
+        ck.case(dict(config=hcfg, kind="tiny-hazard"), nontrivial=True, key=repr(("tinyhz", hz)))
+        ck.count("tiny_hazard_cases")
+        for t, (o, (P, pm, pv)) in enumerate(zip(out, refh)):
+            row = [math.exp(v) for v in o[3][2:]]
+            if len(row) != len(P) or max(abs(a_ - float(b_)) for a_, b_ in zip(row, P)) > 1e-8:
+                ck.violation(dict(clause="posterior", regime="tiny-hazard"), dict(what="with a hazard far below 2.2e-16 (valid: in (0, 1)) the run-length row differs from the exact posterior", config=hcfg, stream=xs[: t + 1], step=t + 1, row=row, exact=[float(x) for x in P]))
+                break
     models = run_models("C08", cases, shard=8)
     corr_compare(ck, "C08", cases, impl, models, rtol=1e-7, atol=1e-9)
 
